@@ -274,6 +274,14 @@ fn vfs_read(path: &str) -> Result<Vec<u8>, Box<dyn std::error::Error + Send + Sy
     })
 }
 
+/// Local time type of a rendering event: offset only, or offset + DST flag + designation when the event names them.
+fn render_type(a: &Value, off: i32) -> Result<LocalTimeType, tz::error::timezone::LocalTimeTypeError> {
+    match a.get("des") {
+        Some(d) => LocalTimeType::new(off, a.get("dst").and_then(|x| x.as_i64()).unwrap_or(0) != 0, Some(&to_bytes(d))),
+        None => LocalTimeType::with_ut_offset(off),
+    }
+}
+
 #[cfg(feature = "cfg-alloc")]
 fn crate_err(e: tz::Error) -> Value {
     match e {
@@ -580,7 +588,7 @@ fn exec_inner(op: &str, a: &Value, st: &mut State) -> Value {
             let off = geti(a, "off") as i32;
             match gets(a, "via") {
                 "utc" => UtcDateTime::new(f.y, f.mo, f.d, f.h, f.mi, f.s, f.ns).map(|x| ok(json!({"text": bytes(x.to_string().as_bytes())}))).unwrap_or_else(err),
-                "dtnew" => match LocalTimeType::with_ut_offset(off) {
+                "dtnew" => match render_type(a, off) {
                     Ok(t) => DateTime::new(f.y, f.mo, f.d, f.h, f.mi, f.s, f.ns, t).map(|x| ok(json!({"text": bytes(x.to_string().as_bytes()), "dt": dt_json(&x)}))).unwrap_or_else(err),
                     Err(e) => err(e),
                 },
@@ -592,7 +600,7 @@ fn exec_inner(op: &str, a: &Value, st: &mut State) -> Value {
             let t = w_to_i64(getv(a, "t"));
             let ns = geti(a, "ns") as u32;
             let off = geti(a, "off") as i32;
-            match LocalTimeType::with_ut_offset(off) {
+            match render_type(a, off) {
                 Ok(ty) => DateTime::from_timespec_and_local(t, ns, ty).map(|x| ok(json!({"text": bytes(x.to_string().as_bytes()), "dt": dt_json(&x)}))).unwrap_or_else(err),
                 Err(e) => err(e),
             }
